@@ -288,8 +288,7 @@ func runC10(r *Run) {
 	}
 	// protected header: no other members than alg/kid -> per-element rule in validateProtectedHeaders
 	if vh := r.fn(P, pkgParser, "Parser.validateProtectedHeaders"); vh != nil {
-		r.checkLoopRequires(P+".accept.header.members", vh, "every protected header member is looked up in the allowed set; a miss is an error",
-			"a protected header with additional members must be rejected", []string{"hit(_, _)"})
+		r.checkLoopMembership(P+".accept.header.members", vh, []string{"alg", "kid"}, "a protected header with additional members must be rejected")
 	}
 	// ValidateDelta loop: every patch enabled and validated
 	if vd := r.fn(P, pkgParser, "Parser.ValidateDelta"); vd != nil {
@@ -309,6 +308,9 @@ func runC10(r *Run) {
 			"enablement must be membership in the protocol's patch list", "true only on an element match", "a true return is not guarded by an element match")
 	}
 
+	if r.Universal {
+		r.universalE11(P, pkgParser, pkgPatchVal, pkgHashing, pkgCommitment, pkgIJWS, pkgJWS, pkgDocHandler, pkgModel)
+	}
 	if r.Universal {
 		r.universalE6(P)
 		r.universalParamsLive(P, sinks)
